@@ -10,7 +10,7 @@
    are the oracle of Spec/ClientCodecSpec.v. Value vectors are unbounded lists. *)
 From Coq Require Import NArith List Arith.
 From Rodbus Require Import Base.Outcome Base.ClientTypes Model.Format Model.Range Model.ClientRequest
-  Spec.ClientCodecSpec Proofs.ClientCodecProofs Proofs.PackProofs Proofs.ClientBytesProofs.
+  Model.ClientPaths Spec.ClientCodecSpec Proofs.ClientCodecProofs Proofs.PackProofs Proofs.ClientBytesProofs Proofs.ClientPathsProofs.
 Import ListNotations.
 Local Open Scope N_scope.
 
@@ -58,6 +58,63 @@ Print Assumptions C03_bytes.
 Theorem C03_total : forall f tx uid c, call_wf c -> client_submit f tx uid c <> Panic.
 Proof. exact submit_total. Qed.
 Print Assumptions C03_total.
+
+(* ---- the three submit paths (Model/ClientPaths.v): async Channel, deprecated CallbackSession,
+   FfiChannel (the C bindings). For every call they queue the SAME request - or all reject -, so
+   the bytes on the wire are those of `client_submit` whichever API is used; all theorems above
+   therefore hold for each path. ---- *)
+Theorem C03_paths_agree : forall p q f tx uid c,
+  path_encode p f tx uid c = path_encode q f tx uid c /\ path_wire p f tx uid c = path_wire q f tx uid c.
+Proof. exact paths_agree. Qed.
+Print Assumptions C03_paths_agree.
+
+Theorem C03_path_wire : forall p f tx uid c, path_wire p f tx uid c = submit_wire f tx uid c.
+Proof. exact path_wire_spec. Qed.
+Print Assumptions C03_path_wire.
+
+(* what each path does with a call: queue exactly the request `build` constructs, or - exactly when
+   `build` fails with e - signal the rejection as the code does (rejection_of, below) *)
+Theorem C03_path_submit : forall p c,
+  submit_via p c = match build c with
+                   | Ok r => Queued r
+                   | Err e => Rejected (rejection_of p c e)
+                   | Panic => Rejected {| rj_returned := None; rj_completion := None |}
+                   end.
+Proof. exact submit_via_spec. Qed.
+Print Assumptions C03_path_submit.
+
+(* The rejection signals, stated as what the code does: the error is returned by the call
+   (Channel: as the value of the future; Ffi: as FfiChannelError::BadRange; WriteMultiple::from) or
+   handed to the callback (CallbackSession reads). Two asymmetries of FfiChannel: read_bits checks
+   the range BEFORE it builds its promise, so the completion callback of a rejected read_coils /
+   read_discrete_inputs is never invoked (the only signal is the return value); read_registers
+   builds the promise first, so a rejected call returns the error AND its dropped promise invokes
+   the callback with Shutdown. *)
+Theorem C03_rejection_signals : forall p c e,
+  rejection_of p c e =
+  match c with
+  | CReadCoils _ _ | CReadDiscreteInputs _ _ =>
+      match p with
+      | ViaChannel | ViaFfi => {| rj_returned := Some e; rj_completion := None |}
+      | ViaCallback => {| rj_returned := None; rj_completion := Some (CErr e) |}
+      end
+  | CReadHoldingRegisters _ _ | CReadInputRegisters _ _ =>
+      match p with
+      | ViaChannel => {| rj_returned := Some e; rj_completion := None |}
+      | ViaCallback => {| rj_returned := None; rj_completion := Some (CErr e) |}
+      | ViaFfi => {| rj_returned := Some e; rj_completion := Some CShutdown |}
+      end
+  | _ => {| rj_returned := Some e; rj_completion := None |}
+  end.
+Proof. reflexivity. Qed.
+Print Assumptions C03_rejection_signals.
+
+Example C03_ffi_read_coils_rejection_has_no_callback :
+  submit_via ViaFfi (CReadCoils 0 2001) = Rejected {| rj_returned := Some ECountTooLargeForType; rj_completion := None |}.
+Proof. vm_compute. reflexivity. Qed.
+Example C03_ffi_read_registers_rejection_calls_back_with_shutdown :
+  submit_via ViaFfi (CReadHoldingRegisters 0 126) = Rejected {| rj_returned := Some ECountTooLargeForType; rj_completion := Some CShutdown |}.
+Proof. vm_compute. reflexivity. Qed.
 
 (* The Spec's coil packing, stated bitwise: coil k is bit (k mod 8) of byte (k / 8) - LSB first -,
    every padding bit is 0 (k beyond the vector reads `false`), and there are ceil(n/8) bytes. *)
